@@ -31,6 +31,8 @@ def cases(tier):
     cs = []
     for k in ([1, 2, 3, 4] if tier == "thorough" else [1, 2, 3]):
         for w in words(n):
+            if k == 1 and len(w.replace("r", "")) > 2 and tier != "thorough":
+                continue  # three recomputations in a row take minutes (measured); thorough tier only
             for niter in ([1, 2] if tier == "thorough" else [1]):
                 cs.append(dict(name=f"k{k}_{w}_it{niter}", fn="history", args=dict(k=k, word=w, niter=niter), weight=len(w) * niter))
     return cs
